@@ -4,6 +4,10 @@ import json, os, sys
 HERE = os.path.dirname(os.path.abspath(__file__))
 
 CHECKS = {
+ 'C15': dict(technique='runtime monitor: math/cmath textbook definitions for forward functions, round-trip identities + principal-range membership for inverse functions, numpy on plain arrays for matrix functions; warning recorder, nan scan and error-class check on every evaluator call',
+             text='Exploration by runtime monitoring: every documented default function of the Formula/Numerical and Matrix tables (factorial excluded) is called through the real evaluator on real grids, random real/complex points, +-1e-9 neighbourhoods of branch cuts, poles, extreme magnitudes, wrong arities and wrong argument shapes (vectors, matrices, tensors); values are compared with definitions, inverse functions by f(f_inv(z)) = z and real-range membership, errors must be student-facing, and no call may emit a numeric warning or nan.',
+             note='Trusted: math/cmath as definitions; tolerances rel 1e-9 (round trips 1e-7); R9 for real arguments outside real domains; scipy-dependent factorial not exercised.',
+             ref='DESIGN.md section 4, C15'),
  'C14': dict(technique='runtime monitor: documented shape-rule table + numpy on plain arrays applied to every MathArray operator call (binary, reflected, in-place), every formula-string evaluation with arrays, and MatrixGrader(negative_powers=False) verdicts; operand fingerprints before/after',
              text='Exploration by runtime monitoring: all ordered operand pairs of the shape lattice (scalars incl. zero, vectors 2-4, matrices up to 4x4, 3-axis tensors; real and complex) x five operators x binary/in-place/reflected forms, exponent classes x negative-power switch, the same pairs through formula strings, triple vector products, and grader calls with negative powers disabled; every outcome is compared with the rule table (value vs error, value equality, student-facing error class, operands unchanged).',
              note='Trusted: rule table transcribed from the statement (R8 for one-element results); numpy on plain ndarrays as value reference; ZeroDivision/Overflow at raw operator level are accepted as errors because the evaluator recasts them.',
